@@ -34,6 +34,26 @@ def stratum(c):
     if t:
         kinds = tuple(sorted({d.get("k") for d in c.get("decls", []) if isinstance(d, dict)}))
         return (t, c.get("place"), c.get("opts", {}).get("resolveType"), kinds)
+    if "module" in c and "sites" in c:
+        # traversal modules (Visitor.tla): one stratum per set of item shapes, so that rare shapes (an arrow without JSX
+        # after a captured copy, ...) are always in the sample
+        def shapes(items):
+            out = set()
+            for it in items:
+                k = it.get("k")
+                if k == "arrow" and it.get("item", {}).get("k") == "plain":
+                    k = "arrowplain"
+                if k == "assign":
+                    k = "assign:" + it.get("rhs", {}).get("k", "") + ":" + str(it.get("rhs", {}).get("kind", ""))
+                if k == "site":
+                    k = "site:" + str(it.get("kind"))
+                out.add(k)
+                if "body" in it:
+                    out |= shapes(it["body"])
+                if "item" in it and isinstance(it["item"], dict):
+                    out |= shapes([it["item"]])
+            return out
+        return ("vmodule", c.get("opts", {}).get("enableObjectSlots"), tuple(sorted(shapes(c["module"]))))
     return (c.get("prop"), c.get("kind"), c.get("lang"))
 
 
